@@ -6836,11 +6836,17 @@ static hawk_val_t* eval_incpst (hawk_rtx_t* rtx, hawk_nde_t* nde)
 		}
 	}
 
+	/* hold the new value across the assignment as eval_incpre() does. when the
+	 * assignment fails, both the new and the old value must be released */
+	hawk_rtx_refupval (rtx, res2);
 	if (HAWK_UNLIKELY(do_assignment(rtx, exp->left, res2) == HAWK_NULL))
 	{
+		hawk_rtx_refdownval (rtx, res2);
+		hawk_rtx_freeval (rtx, res, HAWK_RTX_FREEVAL_CACHE);
 		hawk_rtx_refdownval (rtx, left);
 		return HAWK_NULL;
 	}
+	hawk_rtx_refdownval (rtx, res2);
 
 	hawk_rtx_refdownval (rtx, left);
 	return res;
